@@ -12,6 +12,7 @@ mod seglog;
 mod shards;
 mod iohook;
 mod leafupd;
+mod lockrec;
 mod ovl;
 mod pipeline;
 mod overflow;
@@ -74,6 +75,7 @@ fn main() {
         "delta-log" => delta::run_log(seed, cases, &mut sink),
         "overflow" => overflow::run(seed, cases, &mut sink),
         "leafupd" => leafupd::run(seed, cases, &mut sink),
+        "lockrec" => lockrec::run(seed, cases, &mut sink, &args),
         "pipeline" => pipeline::run(seed, cases, &mut sink, &args),
         "walker" => {
             let focus = arg(&args, "--focus").unwrap_or_else(|| "all".into());
